@@ -210,12 +210,13 @@ func (v *authorizer) Authorize() error {
 		}
 	}
 
-	// remove the rules from the vrifier and authority blocks
-	// so they are not affected by facts created by later blocks
-	v.world.ResetRules()
-
 	for i, block := range v.biscuit.blocks {
+		// the rules of the verifier and of the authority block are not
+		// applied to the facts of later blocks: they are removed from the
+		// block's copy of the world, not from the authorizer's own world,
+		// which is evaluated again by the next Authorize or Query
 		block_world := v.world.Clone()
+		block_world.ResetRules()
 
 		for _, fact := range *block.facts {
 			f, err := fromDatalogFact(v.biscuit.symbols, fact)
